@@ -2,6 +2,7 @@ package main
 
 import (
 	"fmt"
+	"go/ast"
 	"os"
 	"sort"
 	"go/token"
@@ -155,6 +156,10 @@ func (x *Exec) staticCall(fr *Frame, st *State, ins ssa.Instruction, cc *ssa.Cal
 			} else {
 				fr.regs[res] = vals[0]
 			}
+			return
+		}
+		if clo == nil && x.isOpaqueGhost(callee) && callee.Signature.Results().Len() == 1 {
+			x.opaqueCall(fr, st, ins, callee, args, res)
 			return
 		}
 		x.inlineCall(fr, st, ins, callee, clo, args, res)
@@ -329,7 +334,10 @@ func (x *Exec) evalGhost(fr *Frame, gf *ssa.Function, args, oldArgs []Term, st, 
 			oldArgs = args
 		}
 		shared := map[ssa.Value]Term{}
+		savedRec := x.vc.recordPass1
+		x.vc.recordPass1 = true
 		run(oldArgs, old, shared, true)
+		x.vc.recordPass1 = savedRec
 		return run(args, st, shared, false)
 	}
 	return run(args, st, nil, false)
@@ -440,7 +448,17 @@ func (x *Exec) contractCall(fr *Frame, st *State, ins ssa.Instruction, c *Contra
 		}
 		results = append(results, r)
 	}
-	// 4. postconditions
+	// 4. postconditions (not while already instantiating this function's postconditions: a
+	// contract may mention its own function, whose inner applications are then bare symbols)
+	if x.postDepth == nil {
+		x.postDepth = map[*Contract]int{}
+	}
+	if x.postDepth[c] > 0 {
+		x.setResult(fr, res, sig, results)
+		return
+	}
+	x.postDepth[c]++
+	defer func() { x.postDepth[c]-- }()
 	for _, cl := range c.Ensures {
 		if cl.Known {
 			continue // a clause recorded as a known finding is never assumed
@@ -1013,7 +1031,7 @@ func (x *Exec) oldRef(a Term) Term {
 // the value v of type t denotes an object that existed at unit entry.
 func (x *Exec) refsOld(v Term, t types.Type, depth int) Term {
 	if depth > 4 {
-		return tFalse
+		return x.refsOldUnknown
 	}
 	switch u := underlying(t).(type) {
 	case *types.Pointer, *types.Map, *types.Chan, *types.Signature:
@@ -1037,5 +1055,138 @@ func (x *Exec) refsOld(v Term, t types.Type, depth int) Term {
 	case *types.Basic:
 		return tTrue
 	}
-	return tFalse
+	return x.refsOldUnknown
+}
+
+// isOpaqueGhost: the ghost function's doc comment carries the directive vs:opaque.
+func (x *Exec) isOpaqueGhost(fn *ssa.Function) bool {
+	if v, ok := x.eng.opaque[fn]; ok {
+		return v
+	}
+	res := false
+	if fd, ok := fn.Syntax().(*ast.FuncDecl); ok && fd.Doc != nil {
+		res = strings.Contains(fd.Doc.Text(), "vs:opaque")
+	}
+	if x.eng.opaque == nil {
+		x.eng.opaque = map[*ssa.Function]bool{}
+	}
+	x.eng.opaque[fn] = res
+	return res
+}
+
+// opaqueCall: an opaque ghost predicate is an uninterpreted symbol; its definition is supplied
+// as an axiom  forall V. P(args) == body(args)  with P(args) as the instantiation pattern,
+// where V generalises exactly the argument positions that mention quantified variables at
+// this call site (none outside quantifiers: then the axiom is the single instance). This
+// gives quantified specifications over the predicate a usable trigger.
+func (x *Exec) opaqueCall(fr *Frame, st *State, ins ssa.Instruction, callee *ssa.Function, args []Term, res ssa.Value) {
+	vc := x.vc
+	sig := callee.Signature
+	full := "opq " + callee.String()
+	// heaps built inside an enclosing quantifier body (allocations made there) cannot appear
+	// in a closed axiom: such a call is simply unfolded
+	for _, h := range x.reachableHeapsNoTop(sig) {
+		ht := x.heap(st, h).S
+		if strings.Contains(ht, "l!") || strings.Contains(ht, "bv!") {
+			x.inlineCall(fr, st, ins, callee, nil, args, res)
+			return
+		}
+	}
+	// the application itself
+	x.pureCall(fr, st, full, sig, args, res)
+	app0 := fr.regs[res]
+	// axiom key: callee + the non-quantified arguments (+ heap versions, through the application text of a probe)
+	gen := make([]bool, len(args))
+	anyGen := false
+	var keyParts []string
+	for i, a := range args {
+		if strings.Contains(a.S, "bv!") || strings.Contains(a.S, "l!") || strings.Contains(a.S, "ax!") {
+			gen[i] = true
+			anyGen = true
+			keyParts = append(keyParts, "?")
+		} else {
+			keyParts = append(keyParts, a.S)
+		}
+	}
+	var heapSig []string
+	for _, h := range x.reachableHeapsNoTop(sig) {
+		heapSig = append(heapSig, x.heap(st, h).S)
+	}
+	key := callee.String() + "|" + strings.Join(keyParts, "|") + "|" + strings.Join(heapSig, ",")
+	if x.opqDone == nil {
+		x.opqDone = map[string]bool{}
+	}
+	if x.opqDone[key] {
+		return
+	}
+	x.opqDone[key] = true
+	// build the axiom in a fresh binder
+	name := fmt.Sprintf("opq!%d", len(x.opqDone))
+	saveStack, saveBinders, saveNo := vc.letStack, vc.binders, vc.noName
+	vc.letStack, vc.binders, vc.noName = nil, nil, 0
+	x.ghostDepth++
+	var decl []string
+	a2 := make([]Term, len(args))
+	for i, a := range args {
+		if gen[i] {
+			bv := Term{fmt.Sprintf("bv!%s!%d", name, i), a.Sort}
+			a2[i] = bv
+			decl = append(decl, fmt.Sprintf("(%s %s)", bv.S, bv.Sort))
+		} else {
+			a2[i] = a
+		}
+	}
+	var axiom string
+	func() {
+		defer func() {
+			if r := recover(); r != nil {
+				if _, ok := r.(*engError); ok {
+					axiom = ""
+					return
+				}
+				panic(r)
+			}
+		}()
+		if anyGen {
+			vc.openBinder(name)
+		}
+		s2 := st.clone()
+		s2.reach = tTrue
+		// application with generalised arguments
+		tmpFr := x.newFrame(fr.fn, fr)
+		tmpFr.spec = true
+		x.pureCall(tmpFr, s2, full, sig, a2, res)
+		appG := tmpFr.regs[res]
+		vals := x.inlineRun(tmpFr, s2, callee, nil, a2, ins.Pos())
+		body := eq(appG, vals[0])
+		if anyGen {
+			b2, _ := vc.closeBinder(body)
+			axiom = fmt.Sprintf("(forall (%s) (! %s :pattern (%s)))", strings.Join(decl, " "), b2.S, appG.S)
+		} else {
+			axiom = body.S
+		}
+	}()
+	x.ghostDepth--
+	vc.letStack, vc.binders, vc.noName = saveStack, saveBinders, saveNo
+	fr.regs[res] = app0
+	if axiom == "" {
+		return
+	}
+	if vc.noName == 0 {
+		vc.assert(Term{axiom, SBool})
+	} else {
+		x.pendingAxioms = append(x.pendingAxioms, axiom)
+	}
+}
+
+// flushAxioms asserts axioms that were produced while a quantifier body was being built.
+func (x *Exec) flushAxioms() {
+	if x.vc.noName != 0 || len(x.pendingAxioms) == 0 {
+		return
+	}
+	ax := x.pendingAxioms
+	x.pendingAxioms = nil
+	for _, a := range ax {
+		x.vc.assert(Term{a, SBool})
+	}
 }
